@@ -597,9 +597,13 @@ struct RuleVisitor<'a> {
 impl<'a> VisitMut for RuleVisitor<'a> {
     fn visit_block_mut(&mut self, b: &mut Block) {
         {
-            // E3: a `use` declaration inside a function body is dropped like the file-level ones (the unit is flat; paths are shortened by the same rule)
+            // E3: a crate-relative `use` declaration inside a function body is dropped like the file-level ones (the unit is flat; paths are shortened by the same rule)
             let before = b.stmts.len();
-            b.stmts.retain(|s| !matches!(s, Stmt::Item(syn::Item::Use(_))));
+            b.stmts.retain(|s| match s {
+                // only crate-relative imports: `use Enum::*;` and the like bring names into scope that the flat unit still needs
+                Stmt::Item(syn::Item::Use(u)) => !matches!(&u.tree, syn::UseTree::Path(p) if p.ident == "crate" || p.ident == "super"),
+                _ => true,
+            });
             for _ in b.stmts.len()..before {
                 self.applied.bump("E3-use-in-body-dropped");
             }
